@@ -941,6 +941,9 @@ def explore_c12(ctx, res, replay_ops=None):
                         res.violation("oracle", "C12: a one-time event was answered with the session reference %s" % loc, hist())
                 elif loc in (None, "?", "-") or loc not in keys:
                     res.violation("oracle", "C12: create answered 201 but the Location reference %s does not designate a session" % loc, hist())
+                elif any(b < 0x20 or b == 0x7f for b in bytes.fromhex(loc)):
+                    res.violation("oracle", "C12: create answered 201 with a Location reference that contains a control character (%s): no header "
+                                  "can hand it to the consumer (HTTP/2 drops the header, HTTP/1.1 clients reject or mangle it)" % loc, hist())
                 if o.f.get("seq") != rq["seq"] or o.f.get("ts") != "1":
                     res.violation("oracle", "C12: create response does not echo the sequence number / carries no timestamp", hist())
                 known.setdefault(rq["supi"], set())
